@@ -273,16 +273,20 @@ class ConditionalGaussianPDF:
             CLambdaC = jnp.einsum(
                 "abcd,abed->abce", CLambda_x, MSigma_x
             )  # [R1,R,Dy,Dy]
-            delta_ln_det = jnp.linalg.slogdet(Sigma_y[:, None] - CLambdaC)[1].reshape(
-                (R,)
+            delta_ln_det = jnp.linalg.slogdet(
+                Sigma_y.reshape((self.R, p_x.R, self.Dy, self.Dy)) - CLambdaC
+            )[1].reshape((R,))
+            ln_det_Sigma_xy = (
+                jnp.tile(p_x.ln_det_Sigma[None], (self.R, 1)).reshape((R,)) + delta_ln_det
             )
-            ln_det_Sigma_xy = p_x.ln_det_Sigma + delta_ln_det
         else:
             # [R1,Dy,Dy] x [R1, Dy, D] = [R1, Dy, D]
             Sigma_yL = jnp.einsum("abc,acd->abd", self.Sigma, -Lambda_yM)
             # [R1, Dy, D] x [R1, Dy, D] = [R1, D, D]
             LSigmaL = jnp.einsum("abc,abd->acd", -Lambda_yM, Sigma_yL)
-            LSigmaL = jnp.tile(LSigmaL[:, None], (1, p_x.R)).reshape((R, p_x.D, p_x.D))
+            LSigmaL = jnp.tile(LSigmaL[:, None], (1, p_x.R, 1, 1)).reshape(
+                (R, p_x.D, p_x.D)
+            )
             delta_ln_det = jnp.linalg.slogdet(Lambda_x - LSigmaL)[1]
             ln_det_Sigma_xy = -(
                 jnp.tile(-self.ln_det_Sigma[:, None], (1, p_x.R)).reshape((R,))
